@@ -98,7 +98,17 @@ func canonEnv(env []string) []map[string]any {
 }
 
 func envPrint(args []string) error {
-	b, _ := json.Marshal(map[string]any{"in": os.Environ(), "out": diff.GetHardenedEnv()})
+	in1 := os.Environ()
+	held := diff.GetHardenedEnv() // a caller keeps this (a prepared packages.Config.Env)
+	out1 := append([]string(nil), held...)
+	// the process environment grows and the loader environment is computed again, several times
+	for k := 0; k < 3; k++ {
+		os.Setenv(fmt.Sprintf("VERIF_LATER_%d", k), strings.Repeat("x", 40*(k+1)))
+		_ = diff.GetHardenedEnv()
+	}
+	in2 := os.Environ()
+	out2 := diff.GetHardenedEnv()
+	b, _ := json.Marshal(map[string]any{"in": in1, "out": out1, "held": held, "in2": in2, "out2": out2})
 	fmt.Println(string(b))
 	return nil
 }
@@ -149,14 +159,23 @@ func envRun(args []string) error {
 			return fmt.Errorf("env %d: child failed: %v (exit %d)", i, err, code)
 		}
 		var res struct {
-			In  []string `json:"in"`
-			Out []string `json:"out"`
+			In   []string `json:"in"`
+			Out  []string `json:"out"`
+			Held []string `json:"held"`
+			In2  []string `json:"in2"`
+			Out2 []string `json:"out2"`
 		}
 		if err := json.Unmarshal(bytes.TrimSpace(b), &res); err != nil {
 			return fmt.Errorf("env %d: %v: %q", i, err, b)
 		}
 		tw.emit(map[string]any{"ev": "env", "site": "GetHardenedEnv", "given": env,
 			"in": canonEnv(res.In), "out": canonEnv(res.Out), "extra": []string{}})
+		// the result obtained FIRST, read again after the environment changed and the function was called
+		// again: what a caller holds must still be the hardened form of the environment it was made from
+		tw.emit(map[string]any{"ev": "env", "site": "GetHardenedEnv (held across later calls)", "given": env,
+			"in": canonEnv(res.In), "out": canonEnv(res.Held), "extra": []string{}})
+		tw.emit(map[string]any{"ev": "env", "site": "GetHardenedEnv (after the environment grew)", "given": env,
+			"in": canonEnv(res.In2), "out": canonEnv(res.Out2), "extra": []string{}})
 	}
 	return tw.close()
 }
